@@ -264,6 +264,10 @@ func (o *tokOracle) settle(f *flight) {
 			if !sameTokenState(pre, post) {
 				o.fail("C19:error-ack-token-effect", "a receive answered with an error acknowledgement changed ownership, balances or supplies on the receiving chain",
 					map[string]any{"chain": at, "packet": p, "before": pre, "after": post})
+				// C06 in the words of the property: a transfer answered with an error acknowledgement
+				// leaves no token of it on the receiving side (the sender is refunded from this ack)
+				o.fail("C06:failed-transfer-left-token-on-receiver", "a transfer answered with an error acknowledgement left a token (voucher or released original) on the receiving chain: after the refund the asset exists on both sides",
+					map[string]any{"chain": at, "packet": p, "before": pre, "after": post})
 			}
 		}
 		if ok && at == rel {
